@@ -223,7 +223,15 @@ pub fn random_diagram(r: &mut StdRng, c: &RandCfg) -> Value {
             let (hub, leaf) = (next, next + 1);
             next += 2;
             let hub_ph = if r.random_bool(0.85) { 0 } else { 4 };
-            vs.push(AV { id: hub, ty: "Z", ph: hub_ph, vars: vec![] });
+            // a hub may carry variables too (a pivot pushes its partner's variables onto a gadget hub): such a gadget must NOT be
+            // fused with its neighbours over the same legs (drawn only when the configuration has variables)
+            let mut hvars = vec![];
+            for &x in &c.vars {
+                if r.random_bool(c.pvar * 0.6) {
+                    hvars.push(x);
+                }
+            }
+            vs.push(AV { id: hub, ty: "Z", ph: hub_ph, vars: hvars });
             let mut lvars = vec![];
             for &x in &c.vars {
                 if r.random_bool(c.pvar) {
